@@ -13,9 +13,9 @@ NOT_YET = {}
 HOOK_COMMITS = ["1460123bcc5a44e72392e65465c5bd0c424ce6e9"]  # PrefixFileSet::verif_snapshot behind --cfg servlin_verif (src/log/prefix_file_set.rs, Cargo.toml check-cfg)
 
 PROPS["C12"] = dict(
-    suites=["c12t", "c12", "c12e", "c12i"],
+    suites=["c12t", "c12", "c12e", "c12i", "c12s"],
     random_suites=["c12"],
-    shards={"c12t": 8, "c12": 4, "c12e": 1, "c12i": 1},
+    shards={"c12t": 8, "c12": 4, "c12e": 1, "c12i": 1, "c12s": 2},
     lean_modules=["ServlinVerif.Props.C12"],
     audit="Audit/C12.lean",
     rule="c12t: the real TokenSet driven exhaustively: every valid sequence up to depth 6 (thorough: 8) over {wait_token (only where a unit is free: it "
@@ -30,8 +30,8 @@ PROPS["C12"] = dict(
          "that the client's socket takes the last descriptor and accept() fails with EMFILE 1..3 times (the client is starved for 250 ms, the "
          "'too many open files' event is captured), then the descriptors are released: the client must be served and max_conns fresh gated clients "
          "must all be inside simultaneously. Non-trivial = at least one take that had to fail / at least one connection ended abnormally / accept failed.",
-    nontrivial=lambda tag, args, obs: ("O" in obs.split(" ")[0]) if tag == "c12t" else (True if tag in ("c12e", "c12i") else bool(re.search(r"[epdmauvwxyEPDM]", args[1]))),
-    klass=lambda tag, args, obs: ("c12t:size=%s:len=%d" % (args[0], len(args[1]))) if tag == "c12t" else ("c12e:max_conns=%s" % args[0] if tag == "c12e" else "c12i:idle-clients=" + args[0] if tag == "c12i" else "c12:max_conns=%s:clients=%d" % (args[0], len(args[1]))),
+    nontrivial=lambda tag, args, obs: ("O" in obs.split(" ")[0]) if tag == "c12t" else (True if tag in ("c12e", "c12i", "c12s") else bool(re.search(r"[epdmauvwxyEPDM]", args[1]))),
+    klass=lambda tag, args, obs: ("c12t:size=%s:len=%d" % (args[0], len(args[1]))) if tag == "c12t" else ("c12e:max_conns=%s" % args[0] if tag == "c12e" else "c12i:idle-clients=" + args[0] if tag == "c12i" else "c12s:streams=" + args[0] if tag == "c12s" else "c12:max_conns=%s:clients=%d" % (args[0], len(args[1]))),
     explanation="Model/Server.lean: TokenSet as (size, units in the channel, live tokens); the accept loop as a four-state machine, connection tasks as "
                 "a count, every way a connection can end as one event (its token is dropped). Theorems over all event sequences / API sequences: "
                 "C12_tokens (units + live = size, live <= size), C12_drop_returns (try_send never finds the channel full), C12_take_iff, "
